@@ -475,6 +475,8 @@ def _pm_worker(args):
             raise
         if r is not None:
             fails.append(r)
+            if len(fails) >= 2:
+                break           # the run is red already; do not spend minutes per further failure (hangs)
     return st, fails
 
 
@@ -487,7 +489,7 @@ def pmap_cases(fn, items, nproc=None, stop_after=6):
     fails = []
     if not items:
         return total, fails
-    nchunks = min(len(items), nproc * 4)
+    nchunks = min(len(items), max(nproc * 4, (len(items) + 39) // 40))     # at most ~40 items per chunk
     chunks = [items[i::nchunks] for i in range(nchunks)]
     global _PM_FN
     _PM_FN = fn
